@@ -43,6 +43,9 @@ pub fn alphabet() -> Vec<Op> {
         Set(ContentEncoding, "gzip"),
         SetX("X-A", "x"), SetX("X-A", "yy"), AppendX("X-A", "z"), RemoveX("X-A"),
         SetX("X-B", "b"), RemoveX("X-B"),
+        // the by-name API given the name of a header the framework also knows as a standard one (and which no typed
+        // operation of this alphabet touches): to the user it is a header like any other - set, appended to, removed by name
+        SetX("Retry-After", "120"), AppendX("Retry-After", "9"), RemoveX("Retry-After"),
         Cookie("v", false), Cookie("a b;", true),
         Text(""), Text("hi"), Json, Html, Payload, DropContent, Stream,
     ]
@@ -121,11 +124,23 @@ thread_local! {
     static LAST_STATE: RefCell<Option<(Vec<u8>, usize)>> = const { RefCell::new(None) };
 }
 
+thread_local! { static BIG: std::cell::Cell<Option<(usize, u8)>> = const { std::cell::Cell::new(None) }; }
+
+/// body of phase 4: n bytes that cannot be confused with framing when shifted (no CR/LF, position-dependent)
+fn big_body(n: usize, kind: u8) -> Vec<u8> { (0..n).map(|i| if kind == 0 { b'a' + (i % 23) as u8 } else { ((i * 7 + i / 251) % 256) as u8 }).collect() }
+
 fn build_response() -> Response {
     CURRENT.with(|c| {
         let (status, ops) = &*c.borrow();
         let mut res = Response::new(Status::from(*status));
         for op in ops { apply(&mut res, op) }
+        if let Some((n, kind)) = BIG.with(|b| b.get()) {
+            match kind {
+                0 => res.set_text(String::from_utf8(big_body(n, 0)).unwrap()),
+                1 => res.set_payload("application/octet-stream", big_body(n, 1)),
+                _ => res.set_html(String::from_utf8(big_body(n, 0)).unwrap()),
+            }
+        }
         let mut fp = res.headers.__verif_fingerprint();
         let (kind, bytes) = res.__verif_content();
         fp.push(kind); fp.extend_from_slice(bytes);
@@ -174,7 +189,7 @@ fn check_case(ctx: &mut Ctx, router: &VerifRouter, history: &[Op], status: u16, 
     let sc = status_class(status);
     let witness = |problem: &str, detail: String| json!({"history": history.iter().map(op_name).collect::<Vec<_>>(), "status": status, "method": method,
         "problem": problem, "detail": detail, "observed": match &out { Outcome::Response { raw, .. } => crate::core::esc(raw), o => o.kind() }});
-    let removed_then_set = { let p: Vec<String> = ["Server", "Vary", "Content-Type", "Content-Length", "X-A", "X-B"].iter().map(|h| last_pattern(history, h)).collect(); p.iter().any(|x| x.contains("remove>") || x.contains("drop>")) };
+    let removed_then_set = { let p: Vec<String> = ["Server", "Vary", "Content-Type", "Content-Length", "X-A", "X-B", "Retry-After"].iter().map(|h| last_pattern(history, h)).collect(); p.iter().any(|x| x.contains("remove>") || x.contains("drop>")) };
     let (raw, parsed) = match &out {
         Outcome::Response { raw, parsed, .. } => (raw, parsed),
         Outcome::Panic(stage, msg) => {
@@ -273,6 +288,7 @@ pub fn run(ctx: &mut Ctx) {
     // Phase 1: every history up to plain_depth, no merging at all.
     // Phase 2: breadth-first up to dedup_depth, merging histories whose complete implementation state is identical.
     // Work is sharded by the first operation (the empty history belongs to shard 0's first unit).
+    phase4(ctx, &router);
     let mut seen_total = 0u64;
     for (fi, first) in alpha.iter().enumerate() {
         if !ctx.mine() { continue }
@@ -351,9 +367,73 @@ pub fn run(ctx: &mut Ctx) {
     ctx.sample(|| json!({"history": ["Set(Server, \"x\")", "Remove(Server)", "Set(Server, \"yy\")"], "status": 200, "method": "GET"}));
 }
 
+/* ---------------- phase 4: payload sizes x what the connection takes per write ---------------- */
+
+const BIG_SIZES: [usize; 17] = [0, 1, 100, 1023, 1024, 1025, 4095, 4096, 4097, 8192, 16384, 65535, 65536, 65537, 100_000, 262_144, 300_001];
+fn big_writers(n: usize) -> Vec<(crate::sio::WriterMode, &'static str)> {
+    use crate::sio::WriterMode::*;
+    let mut v = vec![(All, "all"), (PendingOnce, "pending-once"), (AtMost(65536), "atmost65536"), (AtMost(4096), "atmost4096"), (AtMost(1000), "atmost1000")];
+    if n <= 16384 { v.push((AtMost(7), "atmost7")) }
+    if n <= 4097 { v.push((AtMost(1), "atmost1")) }
+    v
+}
+fn writer_by_name(name: &str) -> crate::sio::WriterMode {
+    use crate::sio::WriterMode::*;
+    match name { "all" => All, "pending-once" => PendingOnce, "atmost65536" => AtMost(65536), "atmost4096" => AtMost(4096), "atmost1000" => AtMost(1000), "atmost7" => AtMost(7), "atmost1" => AtMost(1), o => panic!("writer {o}") }
+}
+
+fn check_big(ctx: &mut Ctx, router: &VerifRouter, n: usize, kind: u8, writer: &str, method: &str, pre: &[Op]) {
+    CURRENT.with(|c| *c.borrow_mut() = (200, pre.to_vec()));
+    BIG.with(|b| b.set(Some((n, kind))));
+    ctx.transitions += 1;
+    let out = app::oneshot_with_writer(router, &app::request(method, "/", &[("Host", "h")], b""), writer_by_name(writer));
+    BIG.with(|b| b.set(None));
+    let size_class = if n == 0 { "empty" } else if n < 1024 { "small" } else if n <= 65536 { "medium" } else { "large" };
+    let class = |sym: &str| format!("C03/send/payload-{size_class}/writer:{}/{sym}", writer.trim_end_matches(char::is_numeric));
+    let witness = |detail: String| { let w = json!({"big": {"size": n, "kind": kind, "writer": writer, "method": method, "pre": pre.iter().map(op_name).collect::<Vec<_>>()}, "detail": detail}); move || w };
+    let (raw, parsed) = match &out {
+        Outcome::Response { raw, parsed, .. } => (raw, parsed),
+        Outcome::Panic(stage, msg) => { ctx.violation(&class(&format!("panic@{stage}:{}", panic_kind(msg))), true, witness(msg.clone())); return }
+        other => { ctx.violation(&class(&format!("no-response:{}", other.kind())), true, witness(String::new())); return }
+    };
+    let want = big_body(n, if kind == 1 { 1 } else { 0 });
+    match parsed {
+        Err(e) => ctx.violation(&class("malformed-or-truncated"), true, witness(format!("{e}; {} bytes written", raw.len()))),
+        Ok(p) => {
+            let declared = p.header("content-length").and_then(|v| v.parse::<usize>().ok());
+            if declared != Some(n) { ctx.violation(&class("content-length"), true, witness(format!("Content-Length {declared:?}, payload of {n} bytes"))) }
+            else if method == "HEAD" { if p.body.is_empty() { ctx.pass("big:head", n > 0, n > 65536) } else { ctx.violation(&class("head-with-body"), true, witness(format!("{} body bytes", p.body.len()))) } }
+            else if p.body != want {
+                let at = p.body.iter().zip(want.iter()).position(|(a, b)| a != b).unwrap_or(p.body.len().min(want.len()));
+                ctx.violation(&class("wrong-body-bytes"), true, witness(format!("{} body bytes, first difference at {at}", p.body.len())))
+            } else { ctx.pass(&format!("big:{size_class}"), n > 0, n > 65536) }
+        }
+    }
+    ctx.states += 1;
+}
+
+fn phase4(ctx: &mut Ctx, router: &VerifRouter) {
+    let pres: [&[Op]; 3] = [&[], &[Op::SetX("X-A", "x"), Op::Cookie("v", false)], &[Op::Stream]];
+    let mut n_cases = 0u64;
+    for &n in &BIG_SIZES { for kind in 0..3u8 {
+        if !ctx.mine() { continue }
+        for (_, wname) in big_writers(n) { for method in ["GET", "HEAD"] { for pre in pres {
+            if ctx.quick() && n > 100_000 && (wname == "atmost1000" || kind == 2) { continue }
+            check_big(ctx, router, n, kind, wname, method, pre); n_cases += 1;
+        } } }
+    } }
+    ctx.extra.insert("sum_phase4_cases".into(), json!(n_cases));
+    ctx.extra.insert("phase4".into(), json!({"sizes": BIG_SIZES, "kinds": ["text", "payload", "html"], "writers": "all / pending-once / at most 65536, 4096, 1000 (7 up to 16 KiB, 1 up to 4 KiB) bytes per write", "before": ["nothing", "a custom header and a cookie", "a stream that the payload replaces"]}));
+}
+
 pub fn replay(ctx: &mut Ctx, case: &Value) {
     app::pin_clock();
     let router = router();
+    if let Some(b) = case.get("big") {
+        let pre: Vec<Op> = b["pre"].as_array().map(|a| a.iter().map(|n| op_from_name(n.as_str().unwrap()).expect("unknown op")).collect()).unwrap_or_default();
+        check_big(ctx, &router, b["size"].as_u64().unwrap() as usize, b["kind"].as_u64().unwrap() as u8, b["writer"].as_str().unwrap(), b["method"].as_str().unwrap_or("GET"), &pre);
+        return
+    }
     let history: Vec<Op> = case["history"].as_array().expect("history").iter().map(|n| op_from_name(n.as_str().unwrap()).expect("unknown op")).collect();
     let status = case["status"].as_u64().unwrap_or(200) as u16;
     let method = case["method"].as_str().unwrap_or("GET").to_string();
